@@ -127,38 +127,43 @@ theorem reg_mem_rows {ops : List Op} {obj : ObjId} {e o : Op} (h : o ∈ elemReg
 theorem groupsFrom_cons_reg (ops : List Op) (obj : ObjId) (p0 : Nat) {e : Op} (es : List Op) (hm : ¬ e.isMark = true)
     {r0 : Op} {rs : List Op} (hreg : elemRegOps ops obj e.id = r0 :: rs) :
     groupsFrom ops obj p0 (e :: es) =
-      (p0 + (1 + (updateRows ops obj e.id).length), r0 :: rs) ::
+      (p0, p0 + (1 + (updateRows ops obj e.id).length), r0 :: rs) ::
         groupsFrom ops obj (p0 + (1 + (updateRows ops obj e.id).length)) es := by
   simp [groupsFrom, hm, hreg]
 
-theorem seekSlowGo_cons (wf : Op → Nat) (x : Op) (pos endPos : Nat) (reg : List Op) (rest : List (Nat × List Op)) (idx : Nat) :
-    seekSlowGo wf x pos ((endPos, reg) :: rest) idx =
-      if endPos > pos then some ⟨x, pos, idx, reg.any (fun r => r.id == x.id)⟩
+theorem seekSlowGo_cons (wf : Op → Nat) (x : Op) (pos startPos endPos : Nat) (reg : List Op)
+    (rest : List (Nat × Nat × List Op)) (idx : Nat) :
+    seekSlowGo wf x pos ((startPos, endPos, reg) :: rest) idx =
+      if endPos > pos then some ⟨x, pos, idx, decide (startPos ≤ pos)⟩
       else seekSlowGo wf x pos rest (idx + lastW wf reg) := by
   simp [seekSlowGo]
 
 /-- ids of the rows are pairwise distinct (the op store holds every op once) -/
 def RowsDistinct (rows : List Op) : Prop := rows.Pairwise (fun a b => a.id ≠ b.id)
 
-theorem seek_roundtrip_aux (wf : Op → Nat) (ops : List Op) (obj : ObjId) (x : Op) :
-    ∀ (l : List Op) (p0 idx0 start0 i : Nat) {eid : OpId} {reg : List Op} {start : Nat} {o : Op},
+/-- `x` names a row (a present or overwritten value op) of the element that `seek_ops_by_index` finds at
+    unit index `i`: the walk of `seek_list_opid` answers that element's start index and "visible". -/
+theorem seek_tracks_aux (wf : Op → Nat) (ops : List Op) (obj : ObjId) (x : Op) :
+    ∀ (l : List Op) (p0 idx0 start0 i : Nat) {eid : OpId} {reg : List Op} {start : Nat},
       RowsDistinct (rowsOf ops obj l) →
       seekByIndexW wf (regsOf ops obj l) i start0 = some (eid, reg, start) →
-      reg.getLast? = some o → x.id = o.id →
-      ∃ k, idxOfId o.id (rowsOf ops obj l) = some k ∧
+      (∀ e ∈ l, e.id = eid → ∃ r ∈ e :: updateRows ops obj e.id, r.id = x.id) →
+      ∃ k, idxOfId x.id (rowsOf ops obj l) = some k ∧
         seekSlowGo wf x (p0 + k) (groupsFrom ops obj p0 l) idx0 = some ⟨x, p0 + k, idx0 + (start - start0), true⟩ ∧
         start0 ≤ start := by
   intro l
   induction l with
-  | nil => intro p0 idx0 start0 i eid reg start o _ h; simp [regsOf, seekByIndexW] at h
+  | nil => intro p0 idx0 start0 i eid reg start _ h; simp [regsOf, seekByIndexW] at h
   | cons e es ih =>
-    intro p0 idx0 start0 i eid reg start o hd h hlast hx
+    intro p0 idx0 start0 i eid reg start hd h hrow
     have hrows : rowsOf ops obj (e :: es) = (e :: updateRows ops obj e.id) ++ rowsOf ops obj es := by
       simp [rowsOf]
     have hd2 : RowsDistinct (rowsOf ops obj es) := by
       unfold RowsDistinct at hd ⊢
       rw [hrows] at hd
       exact (List.pairwise_append.mp hd).2.1
+    have hrow2 : ∀ e' ∈ es, e'.id = eid → ∃ r ∈ e' :: updateRows ops obj e'.id, r.id = x.id :=
+      fun e' he' => hrow e' (List.mem_cons_of_mem _ he')
     -- skipping the element `e`: the op lies in a later element
     have skip : ∀ idx1 start1,
         seekByIndexW wf (regsOf ops obj es) i start1 = some (eid, reg, start) →
@@ -166,20 +171,17 @@ theorem seek_roundtrip_aux (wf : Op → Nat) (ops : List Op) (obj : ObjId) (x : 
             (groupsFrom ops obj (p0 + (1 + (updateRows ops obj e.id).length)) es) idx1
           = seekSlowGo wf x (p0 + ((1 + (updateRows ops obj e.id).length) + k')) (groupsFrom ops obj p0 (e :: es)) idx0) →
         idx1 + (start - start1) = idx0 + (start - start0) → start0 ≤ start1 →
-        ∃ k, idxOfId o.id (rowsOf ops obj (e :: es)) = some k ∧
+        ∃ k, idxOfId x.id (rowsOf ops obj (e :: es)) = some k ∧
           seekSlowGo wf x (p0 + k) (groupsFrom ops obj p0 (e :: es)) idx0 = some ⟨x, p0 + k, idx0 + (start - start0), true⟩ ∧
           start0 ≤ start := by
       intro idx1 start1 h1 hgo hidx hle
-      obtain ⟨k', hk', hs', hle'⟩ := ih (p0 + (1 + (updateRows ops obj e.id).length)) idx1 start1 i hd2 h1 hlast hx
-      have hno : ∀ r ∈ e :: updateRows ops obj e.id, r.id ≠ o.id := by
+      obtain ⟨k', hk', hs', hle'⟩ := ih (p0 + (1 + (updateRows ops obj e.id).length)) idx1 start1 i hd2 h1 hrow2
+      have hno : ∀ r ∈ e :: updateRows ops obj e.id, r.id ≠ x.id := by
         intro r hr heq
-        have hk'lt := idxOfId_lt hk'
-        -- the row at k' of the later rows has id o.id: contradiction with distinctness
         unfold RowsDistinct at hd
         rw [hrows] at hd
         have hcross := (List.pairwise_append.mp hd).2.2
-        have : ∃ r' ∈ rowsOf ops obj es, r'.id = o.id := exists_of_idxOfId hk'
-        obtain ⟨r', hr', hid'⟩ := this
+        obtain ⟨r', hr', hid'⟩ := exists_of_idxOfId hk'
         exact hcross r hr r' hr' (by rw [heq, hid'])
       refine ⟨(1 + (updateRows ops obj e.id).length) + k', ?_, ?_, by omega⟩
       · rw [hrows, idxOfId_append_right _ hno, hk']
@@ -211,26 +213,21 @@ theorem seek_roundtrip_aux (wf : Op → Nat) (ops : List Op) (obj : ObjId) (x : 
         · simp only [hlt, if_true, Option.some.injEq, Prod.mk.injEq] at h
           obtain ⟨h1, h2, h3⟩ := h
           subst h1 h2 h3
-          have homem : o ∈ elemRegOps ops obj e.id := by
-            rw [hreg]; exact List.mem_of_getLast? hlast
-          obtain ⟨r, hr, hrid⟩ := reg_mem_rows homem
+          obtain ⟨r, hr, hrid⟩ := hrow e (by simp) rfl
           obtain ⟨k, hk, hklt⟩ := idxOfId_of_mem hr hrid
           refine ⟨k, ?_, ?_, Nat.le_refl _⟩
           · rw [hrows]; exact idxOfId_append_left _ hk
-          · have hany : (r0 :: rs).any (fun r => r.id == x.id) = true := by
-              rw [List.any_eq_true]
-              exact ⟨o, by rw [← hreg]; exact homem, by simp [hx]⟩
-            have hlen : (e :: updateRows ops obj e.id).length = 1 + (updateRows ops obj e.id).length := by
+          · have hlen : (e :: updateRows ops obj e.id).length = 1 + (updateRows ops obj e.id).length := by
               simp; omega
             have : p0 + (1 + (updateRows ops obj e.id).length) > p0 + k := by omega
             rw [groupsFrom_cons_reg ops obj p0 es hm hreg, seekSlowGo_cons, if_pos this]
-            simp [hany]
+            simp
         · simp only [hlt, if_false] at h
           apply skip (idx0 + lastW wf (r0 :: rs)) (start0 + lastW wf (r0 :: rs)) h
           · intro k'
             have : ¬ (p0 + (1 + (updateRows ops obj e.id).length) > p0 + (1 + (updateRows ops obj e.id).length + k')) := by omega
             rw [groupsFrom_cons_reg ops obj p0 es hm hreg, seekSlowGo_cons, if_neg this, Nat.add_assoc]
-          · have := (ih (p0 + (1 + (updateRows ops obj e.id).length)) 0 (start0 + lastW wf (r0 :: rs)) i hd2 h hlast hx)
+          · have := (ih (p0 + (1 + (updateRows ops obj e.id).length)) 0 (start0 + lastW wf (r0 :: rs)) i hd2 h hrow2)
             obtain ⟨_, _, _, hle'⟩ := this
             omega
           · omega
@@ -255,23 +252,67 @@ theorem findRow_of_idx {rows : List Op} {id : OpId} {k : Nat} (h : idxOfId id ro
         have := ih hk (idxOfId_lt hk)
         simpa using this
 
-/-- the walk of `seek_list_opid` finds the op a cursor taken at unit index `i` names, at the start index
-    of its element, and sees it as visible -/
-theorem seekSlow_roundtrip (wf : Op → Nat) (ops : List Op) (obj : ObjId) (i : Nat)
-    {eid : OpId} {reg : List Op} {start : Nat} {o : Op}
+/-- the rows of element `eid` (its insert op and the non-insert ops keyed on it) contain an op with id `xid`:
+    `xid` names a value op — current or overwritten — of that element -/
+def NamesRowOf (ops : List Op) (obj : ObjId) (xid eid : OpId) : Prop :=
+  ∀ e ∈ rgaOrder ops obj, e.id = eid → ∃ r ∈ e :: updateRows ops obj e.id, r.id = xid
+
+/-- the walk of `seek_list_opid` finds any value op of a visible element at the element's start index and
+    reports the element as visible -/
+theorem seekSlow_tracks (wf : Op → Nat) (ops : List Op) (obj : ObjId) (i : Nat) (xid : OpId)
+    {eid : OpId} {reg : List Op} {start : Nat}
     (hd : RowsDistinct (objRows ops obj))
-    (h : seekByIndexW wf (seqRegs ops obj) i 0 = some (eid, reg, start)) (hlast : reg.getLast? = some o) :
-    ∃ f, seekSlow wf ops obj o.id = some f ∧ f.index = start ∧ f.visible = true ∧ f.op.id = o.id := by
+    (h : seekByIndexW wf (seqRegs ops obj) i 0 = some (eid, reg, start))
+    (hx : NamesRowOf ops obj xid eid) :
+    ∃ f, seekSlow wf ops obj xid = some f ∧ f.index = start ∧ f.visible = true ∧ f.op.id = xid := by
   rw [seqRegs_eq] at h
   rw [objRows_eq] at hd
-  obtain ⟨k, hk, _, _⟩ := seek_roundtrip_aux wf ops obj o (rgaOrder ops obj) 0 0 0 i hd h hlast rfl
+  let x0 : Op := ⟨xid, obj, .head, false, .del, []⟩
+  obtain ⟨k, hk, _, _⟩ := seek_tracks_aux wf ops obj x0 (rgaOrder ops obj) 0 0 0 i hd h hx
   obtain ⟨r, hfind, hrid⟩ := findRow_of_idx hk
-  obtain ⟨k2, hk2, hgo, _⟩ := seek_roundtrip_aux wf ops obj r (rgaOrder ops obj) 0 0 0 i hd h hlast hrid
-  have hkk : k2 = k := by rw [hk] at hk2; injection hk2 with h'; exact h'.symm
+  obtain ⟨k2, hk2, hgo, _⟩ := seek_tracks_aux wf ops obj r (rgaOrder ops obj) 0 0 0 i hd h (by rw [hrid]; exact hx)
+  have hkk : k2 = k := by
+    rw [hrid] at hk2
+    have hk' : idxOfId xid (rowsOf ops obj (rgaOrder ops obj)) = some k := hk
+    rw [hk'] at hk2; injection hk2 with h'; exact h'.symm
   subst hkk
   refine ⟨⟨r, k2, start, true⟩, ?_, rfl, rfl, hrid⟩
   unfold seekSlow
   rw [objRows_eq, hfind]
   simpa using hgo
+
+/-- the winning value op of the element found at index `i` names a row of that element -/
+theorem winner_namesRow {wf : Op → Nat} {ops : List Op} {obj : ObjId} {i : Nat}
+    {eid : OpId} {reg : List Op} {start : Nat} {o : Op}
+    (h : seekByIndexW wf (seqRegs ops obj) i 0 = some (eid, reg, start)) (hlast : reg.getLast? = some o) :
+    NamesRowOf ops obj o.id eid := by
+  intro e he heid
+  -- `reg` is the register of the element with id `eid`
+  rw [seqRegs_eq] at h
+  have key : ∀ (l : List Op) (s0 : Nat), seekByIndexW wf (regsOf ops obj l) i s0 = some (eid, reg, start) →
+      reg = elemRegOps ops obj eid := by
+    intro l
+    induction l with
+    | nil => intro s0 h; simp [regsOf, seekByIndexW] at h
+    | cons e' es ih =>
+      intro s0 h
+      by_cases hm : e'.isMark = true
+      · have : regsOf ops obj (e' :: es) = regsOf ops obj es := by simp [regsOf, hm]
+        rw [this] at h; exact ih s0 h
+      · cases hreg : elemRegOps ops obj e'.id with
+        | nil =>
+          have : regsOf ops obj (e' :: es) = regsOf ops obj es := by simp [regsOf, hm, hreg]
+          rw [this] at h; exact ih s0 h
+        | cons r0 rs =>
+          have : regsOf ops obj (e' :: es) = (e'.id, r0 :: rs) :: regsOf ops obj es := by simp [regsOf, hm, hreg]
+          rw [this, seekByIndexW] at h
+          split at h
+          · simp only [Option.some.injEq, Prod.mk.injEq] at h
+            rw [← h.1, ← h.2.1, hreg]
+          · exact ih _ h
+  have hreg := key _ 0 h
+  have : o ∈ elemRegOps ops obj e.id := by
+    rw [heid, ← hreg]; exact List.mem_of_getLast? hlast
+  exact reg_mem_rows this
 
 end AmVerif.Crdt
